@@ -8,6 +8,8 @@ Four passes (all on the real dclab code, datasets are RTDC_Dict instances):
  fake    correspondence  RTDCBase.get_kde_scatter + kde_methods.ignore_nan_inf
                          + _apply_scale with an exact stand-in estimator vs
                          Model/C12.v (scatter_flat)
+ adjust  correspondence  statsmodels _adjust_shape (how kde_multivariate's
+                         positions reach the estimator) vs adjust_shape
  perc    correspondence  np.percentile / np.nanpercentile and
                          kde_contours.get_quantile_levels (affine density) vs
                          perc_lin / quantile_level of the model
@@ -217,7 +219,7 @@ def gen_filter(rng, n, feats):
 def gen_params(rng, n, feats):
     names = sorted(feats)
     xax, yax = rng.sample(names, 2)
-    npos = rng.choice([0, 1, 3, 10])
+    npos = rng.choice([0, 1, 2, 2, 3, 10])
     pos = [inject(rng, gen_values(rng, npos, "spread", rng.random() < .7), .1),
            inject(rng, gen_values(rng, npos, "spread", rng.random() < .7), .1)]
     return dict(
@@ -623,6 +625,7 @@ def sc(a, scale):
         return np.log(a)
 
 
+TWO_POS = "[multivariate KDE at exactly two positions] "
 RTOL = {"histogram": 1e-6, "gauss": 1e-9, "multivariate": 1e-9, "none": 0}
 
 
@@ -715,7 +718,9 @@ def check_reference(case, obs, mask):
                     counts["ref-compared"] = counts.get("ref-compared",
                                                         0) + 1
                     if dd:
-                        fails.append("%s/%s: %s" % (which, key, dd))
+                        tag = TWO_POS if (kt == "multivariate" and
+                                          int(og.sum()) == 2) else ""
+                        fails.append("%s%s/%s: %s" % (tag, which, key, dd))
                 # contour: grid by definition + density on the grid
                 r = obs["contour/" + key]
                 if r[0] != "ok" or ex.size == 0:
@@ -754,7 +759,9 @@ def check_reference(case, obs, mask):
                     continue
                 dd = dens_close(kt, Z, ref, peak)
                 if dd:
-                    fails.append("contour/%s: %s" % (key, dd))
+                    tag = TWO_POS if (kt == "multivariate" and
+                                      Z.size == 2) else ""
+                    fails.append("%scontour/%s: %s" % (tag, key, dd))
                 # quantile level: fraction of events below it
                 qr = obs.get("quantile/" + key)
                 if qr is None or qr[0] != "ok":
@@ -800,6 +807,12 @@ def check_quantile(X, Y, Z, xsel, ysel, par, levels):
     if px.size == 0:
         return None
     dp = bilinear(gx, gy, Z, px, py)
+    # events on the border of the grid: with a log scale the border is
+    # exp(log(x)), one ulp beside x, so "inside" is a matter of rounding
+    amb = 0
+    for g, p in ((gx, px), (gy, py)):
+        for edge in (g[0], g[-1]):
+            amb += int(np.sum(np.abs(p - edge) <= 1e-9 * abs(edge)))
     top = float(Z.max())
     if par["normalize"]:
         dp = dp / top
@@ -810,7 +823,8 @@ def check_quantile(X, Y, Z, xsel, ysel, par, levels):
         q = a / b
         below = int(np.sum(dp < lev - eps))
         notabove = int(np.sum(dp <= lev + eps))
-        if below > q * n + (1 - q) + 1e-9 or notabove <= q * n - q - 1e-9:
+        if below > q * n + (1 - q) + amb + 1e-9 or \
+                notabove <= q * n - q - amb - 1e-9:
             return ("level %r for q=%d/%d: %d of %d events lie below it and "
                     "%d not above it" % (float(lev), a, b, below, n,
                                          notabove))
@@ -1186,6 +1200,35 @@ def quant_compare(case, model, impl):
 
 
 # --------------------------------------------------------------------------
+# correspondence: statsmodels _adjust_shape (positions of kde_multivariate)
+# --------------------------------------------------------------------------
+def gen_adjust_case(rng):
+    r = rng.choice([0, 1, 2, 2, 2, 3, 4])
+    c = rng.choice([0, 1, 2, 2, 2, 3, 5])
+    return dict(kind="adjust", r=r, c=c,
+                rows=[[rng.randint(-9, 9) for _ in range(c)]
+                      for _ in range(r)])
+
+
+def adjust_impl(case):
+    import numpy as np
+    from dclab.external.statsmodels.nonparametric._kernel_base import \
+        _adjust_shape
+    arr = np.array(case["rows"], dtype=np.float64).reshape(case["r"],
+                                                          case["c"])
+    try:
+        out = _adjust_shape(arr, 2)
+    except ValueError:
+        return [1]
+    return [0, int(out.shape[0])] + [int(v) for v in out.ravel()]
+
+
+def adjust_render(case):
+    return "(%d, %d, %s)" % (case["r"], case["c"], common.clist(
+        [common.zlist(r) for r in case["rows"]]))
+
+
+# --------------------------------------------------------------------------
 def load_corpus():
     d = os.path.join(common.VERIF, "corpus", PROP)
     cases = []
@@ -1196,8 +1239,15 @@ def load_corpus():
     return cases
 
 
-def classify(case, desc):
-    """no known finding for C12"""
+FINDING_TWO_POS = "C12-multivariate-two-positions"
+
+
+def classify(case, fails):
+    """matcher of the known finding: every failure of the case is a
+    multivariate-KDE density evaluated at exactly two (finite) positions that
+    differs from the reference estimator"""
+    if fails and all(f.startswith(TWO_POS) for f in fails):
+        return FINDING_TWO_POS
     return None
 
 
@@ -1212,7 +1262,7 @@ def meta_collect(run, cases, results):
             desc = "; ".join(r["fails"][:4])
             if len(r["fails"]) > 4:
                 desc += "; ... (%d in total)" % len(r["fails"])
-            run.oracle_failure(c, desc, classify(c, desc))
+            run.oracle_failure(c, desc, classify(c, r["fails"]))
 
 
 def run(run):
@@ -1262,6 +1312,17 @@ def run(run):
         q_model = common.coq_map(run.scratch, "c12q", HEADER, "quant_flat",
                                  [quant_render(c) for c in quant_cases],
                                  shard=40)
+        a_cases = [gen_adjust_case(run.rng) for _ in range(n_perc)]
+        a_model = common.coq_map(run.scratch, "c12a", HEADER, "adjust_flat",
+                                 [adjust_render(c) for c in a_cases],
+                                 shard=120)
+        for c, m in zip(a_cases, a_model):
+            run.corr_checked += 1
+            run.count("corr:adjust-shape")
+            run.record_case(c, c["r"] == 2 or c["c"] == 2, sample=False)
+            i = adjust_impl(c)
+            if i != m:
+                run.mismatch(c, m, i)
         meta_collect(run, meta_cases, [f.result() for f in futs])
 
     for c, (coq, impl), m in zip(stats_cases, s_impl, s_model):
@@ -1317,6 +1378,11 @@ def check_case(case, scratch):
                                               common.zlist(case["d"]))])[0]
         d = perc_compare(case, m)
         return [d] if d else []
+    if kind == "adjust":
+        m = common.coq_map(scratch, "c12ra", HEADER, "adjust_flat",
+                           [adjust_render(case)])[0]
+        i = adjust_impl(case)
+        return [] if m == i else ["model %r, implementation %r" % (m, i)]
     if kind == "quant":
         m = common.coq_map(scratch, "c12rq", HEADER, "quant_flat",
                            [quant_render(case)])[0]
@@ -1373,7 +1439,7 @@ def search(run, broken):
     with concurrent.futures.ProcessPoolExecutor(
             max_workers=common.NCPU) as ex:
         for c, r in zip(cases, ex.map(meta_worker, args, chunksize=4)):
-            if r["fails"] and classify(c, r["fails"][0]) is None:
+            if r["fails"] and classify(c, r["fails"]) is None:
                 return shrink(run, dict(case=c, desc="; ".join(r["fails"][:4])))
     return None
 
